@@ -335,7 +335,7 @@ def build_request(ex, meta):
         r["trait"] = o["trait"]
     if "derive" in o:
         r["derive_keep"] = [x for x in o["derive"].split(",") if x and x != "Structural"]
-    for k in ("index_recv", "drop_calls", "opaque_macros", "mut_params", "str_params", "into_vec", "iter_on", "keyed_mut_iter"):
+    for k in ("index_recv", "drop_calls", "opaque_macros", "mut_params", "str_params", "into_vec", "iter_on", "iter_vec", "keyed_mut_iter"):
         if k in o:
             r[k] = o[k].split(",")
     if "param_types" in o:
@@ -346,6 +346,8 @@ def build_request(ex, meta):
         r["copied_to_map"] = True
     if "slice_stmt" in o:
         r["slice_stmt"] = o["slice_stmt"].replace("~", " ")
+        if "slice_nth" in o:
+            r["slice_nth"] = int(o["slice_nth"])
         if "slice_tail" in o:
             r["slice_tail"] = o["slice_tail"].replace("~", " ")
     if "slice_from" in o or "slice_to" in o:
